@@ -492,6 +492,63 @@ func vpH_C02_fixed_strings() {
 	vpReach("end")
 }
 
+// IRI lists (the IRIs type) with empty entries at every position, on their own and as a property value
+func vpH_C02_iri_lists() {
+	n := 2 + vpChoice(2)
+	var list IRIs
+	var want []string
+	for i := 0; i < n; i++ {
+		if vpBool() {
+			id := "https://h.ex/" + string([]byte{'a' + byte(i), vpAlnum()})
+			list = append(list, IRI(id))
+			want = append(want, id)
+		} else {
+			list = append(list, IRI(""))
+		}
+	}
+	var b []byte
+	var err error
+	term := ""
+	if vpBool() {
+		b, err = list.MarshalJSON()
+	} else {
+		term = "inReplyTo"
+		b, err = vpMarshalItem(&Object{ID: "https://h.ex/i", Type: NoteType, InReplyTo: list})
+	}
+	vpAssert("iri-lists/no-error", err == nil)
+	if len(b) == 0 {
+		vpAssert("iri-lists/empty-only-for-nothing", len(want) == 0)
+		vpReach("end")
+		return
+	}
+	doc, _ := vpParseJSON(b)
+	vpAssert("iri-lists/valid-json", doc != nil)
+	if doc == nil {
+		vpReach("end")
+		return
+	}
+	m := doc
+	if term != "" {
+		m = doc.get(term)
+	}
+	if m != nil && m.kind == 'a' {
+		k := 0
+		for _, e := range m.elems {
+			if e.kind == 's' && len(e.str) == 0 {
+				continue // an empty string for an empty entry is still valid
+			}
+			vpAssert("iri-lists/entries-in-order", k < len(want) && e.kind == 's' && string(e.str) == want[k])
+			k++
+		}
+		vpAssert("iri-lists/all-entries-written", k == len(want))
+	} else if m != nil && m.kind == 's' {
+		vpAssert("iri-lists/single-entry", len(want) == 1 && string(m.str) == want[0])
+	} else {
+		vpAssert("iri-lists/nothing-only-for-nothing", len(want) == 0)
+	}
+	vpReach("end")
+}
+
 func vpW_C02_twin() {
 	x := &Object{ID: IRI(vpBytes(1)), Type: NoteType}
 	b, _ := x.MarshalJSON()
